@@ -340,6 +340,11 @@ class Impl:
             kw, ordered = self.cfg(s[1])
             with self.ordered(ordered):
                 return [u.enc_obj(optree.tree_replace_nones(u.leaf(0, 777777), u.obj(s[2]), namespace=kw['namespace']))]
+        if op == 'ordersm':
+            return self.ordersm(s[1:])
+        if op == 'regsm':
+            import regsm_impl
+            return regsm_impl.run(s[1] == '1', s[2:])
         if op == 'repr':
             return [repr(self.spec(s[1]))]
         if op == 'eq':
@@ -358,6 +363,39 @@ class Impl:
             keys = [u.key(k) for k in s[1:]]
             return self.sort_observation(keys)
         raise BadOp(f'request {op}')
+
+    def ordersm(self, events, observe=None):
+        """run enter / exit / raise events through real `dict_insertion_ordered` context managers"""
+        stack = []
+        out = []
+
+        def obs():
+            return [[bool(_C.is_dict_insertion_ordered(n, False)), bool(_C.is_dict_insertion_ordered(n, True))]
+                    for n in ('', 'a', 'b')]
+        try:
+            for e in events:
+                if e[0] == 'enter':
+                    cm = optree.dict_insertion_ordered(e[1] == '1', namespace=ns_arg(e[2]))
+                    cm.__enter__()
+                    stack.append(cm)
+                elif e[0] == 'exit':
+                    if stack:
+                        stack.pop().__exit__(None, None, None)
+                elif e[0] == 'raise':
+                    exc = UserExc(13)
+                    while stack:
+                        swallowed = stack.pop().__exit__(UserExc, exc, None)
+                        if swallowed:
+                            raise AssertionError('context manager swallowed the exception')
+                else:
+                    raise BadOp('event')
+                out.append(obs())
+                if observe is not None:
+                    observe(len(out) - 1)
+        finally:
+            while stack:
+                stack.pop().__exit__(None, None, None)
+        return out
 
     def enc_sentinel(self, t):
         return self.u.enc_obj(t)
